@@ -48,3 +48,54 @@ Section JsonMocRoundTrip.
     apply cov_perm. apply Permutation_map. exact Hperm.
   Qed.
 End JsonMocRoundTrip.
+
+(** ---------- whatever the characters read, an accepted JSON document is a valid cell list ---------- *)
+Section JsonSound.
+  Variable sortf : qty -> list aelem -> list aelem.
+  Hypothesis sortf_perm : forall q l, Permutation (sortf q l) l.
+  Hypothesis sortf_sorted : forall q l, Sorted (fun a b => flat_leb q a b = true) (sortf q l).
+  Variable q : qty.
+  Variable w : N.
+
+  Definition jwf (x : aelem) : Prop := adepth x <= max_depth q w /\ elem_ok q x.
+
+  Lemma jcells_sound m : forall ds dm l_acc dm' l',
+    jcells q m ds dm l_acc = AOk (dm', l') ->
+    dm <= max_depth q w -> Forall (fun d => d <= max_depth q w) ds ->
+    Forall (fun x => jwf x /\ adepth x <= dm) l_acc ->
+    dm' <= max_depth q w /\ Forall (fun x => jwf x /\ adepth x <= dm') l'.
+  Proof.
+    induction ds as [|d ds IH]; intros dm l_acc dm' l' H Hdm Hds Hacc.
+    - cbn [jcells] in H. inversion H; subst. split; assumption.
+    - inversion Hds as [|? ? Hd Hds']; subst. cbn [jcells] in H.
+      destruct (jlookup (adec d) m) as [[n|s|l|l]|]; try (apply (IH _ _ _ _ H Hdm Hds' Hacc)).
+      destruct (forallb (fun v => v <? n_cells q d) (nums_of l)) eqn:E; [|discriminate].
+      apply (IH _ _ _ _ H); [lia|exact Hds'|].
+      apply Forall_app. split.
+      + eapply Forall_impl; [|exact Hacc]. intros x [Hx1 Hx2]. split; [exact Hx1|lia].
+      + rewrite Forall_map. apply Forall_forall. intros v Hv.
+        rewrite forallb_forall in E. specialize (E v Hv). apply N.ltb_lt in E.
+        split; [split; [exact Hd|exact E]|cbn [adepth]; lia].
+  Qed.
+
+  Theorem json_reader_sound s dm l : from_json sortf q w s = JRRes (AOk (dm, l)) ->
+    dm <= max_depth q w /\ Forall (elem_wf q dm) l /\ asc 0 (map (erange q w) l).
+  Proof.
+    unfold from_json. destruct (jparse s) as [| |v]; try discriminate.
+    unfold json_value_1d. destruct v as [n|st|a|m]; try discriminate.
+    destruct (jcells q m (anseq 0 (S (N.to_nat (max_depth q w)))) 0 []) as [[dm0 l0]|e] eqn:C; [|discriminate].
+    destruct (adj_ok q w (sortf q l0)) eqn:A; [|discriminate].
+    intros H. inversion H; subst; clear H.
+    destruct (jcells_sound m _ _ _ _ _ C (N.le_0_l _)) as [H1 H2].
+    { apply Forall_forall. intros d Hd. apply nseq_in in Hd. lia. }
+    { constructor. }
+    assert (H3 : Forall (fun x => jwf x /\ adepth x <= dm) (sortf q l0)).
+    { apply Forall_forall. intros x Hx. rewrite Forall_forall in H2. apply H2.
+      eapply Permutation_in; [apply sortf_perm|exact Hx]. }
+    split; [exact H1|]. split.
+    - eapply Forall_impl; [|exact H3]. intros x [[_ Hx2] Hx3]. split; assumption.
+    - apply sorted_adj_asc; [|apply sortf_sorted|exact A|].
+      + eapply Forall_impl; [|exact H3]. intros x [Hx _]. exact Hx.
+      + destruct (sortf q l0); [exact I|lia].
+  Qed.
+End JsonSound.
